@@ -213,7 +213,7 @@ TEXTS["C05"] = {
             "of one of its children write global-tx-<gid>): over ANY sequence of handled IBTPs a group whose global state is neither BEGIN nor SUCCESS stays so (C05_history_failed_group_stays_failed). On the real node a protocol monitor written from the property text follows every group "
             "through receipts, status queries, the stored group record (q gtx: global state and every child state, also compared with the model) and the per-block multi-tx / timeout metadata; receipts for group children include repeated reports and the "
             "failure / rollback acknowledgements sent after the group has failed. Four defects repaired by fix: commits (destinations never told on a failure receipt; all children filed under the first child's chain; notify "
-            "lists and timed-out children in Go map order).",
+            "lists and timed-out children in Go map order). In the block in which a group fails or times out the monitor also reads what the REAL router (internal/router: subscription feed and fetch-again path, run in the harness on that block and its interchain meta) hands to every pier (rule group-*-not-delivered-to-piers).",
     "note": TB + " Inter-BitXHub groups (union pier) are outside the op language; the timeout of a group is checked by the monitor and the model, not by a separate theorem.",
     "technique": "Lean 4 theorems over the executable transaction-manager model (FSM table regenerated) + differential correspondence + group protocol monitor",
 }
